@@ -102,7 +102,12 @@ class Rotate(Relation):
             'region': st.one_of(leaf, leaf, leaf,
                                 G.compound(near, max_depth=2)),
             'visual': st.sampled_from([None, {'color': 'red'},
-                                       {'linewidth': 2, 'facecolor': 'blue'}]),
+                                       {'linewidth': 2, 'facecolor': 'blue'},
+                                       # (what the DS9 reader stores for
+                                       # textangle / a rotated label)
+                                       {'rotation': 30, 'color': 'cyan'},
+                                       {'rotation': -12.5, 'textangle': 10,
+                                        'fontsize': 11}]),
         })
 
     def check(self, sp, ctx):
